@@ -203,7 +203,7 @@ func c20Mistyped(c *mon.Ctx, class string, tok []byte) {
 }
 
 func runC20(c *mon.Ctx) {
-	c.Rule("envelopes assembled by the harness's own CBOR encoder around real signed tokens (7 algorithms, both profiles + extension): every tag 0..30 / 61 / 96 / 97 / 98 / none / nested / non-minimal; array lengths 0..6; each of the four elements replaced by every CBOR kind (uint, nint, bstr, empty bstr, tstr, array, map, tag, false, true, null, undefined, float); payload := a claims map of either profile in which one known claim (or a component / component field) carries a value of an undecodable type (17 kinds); every tag number 0..300; payload content := int / tstr / array / null / undefined / true / float / bstr(map) / bstr(bstr(map)) / tagged map / map+trailing / empty / truncated map / indefinite map; 1-8 trailing bytes; COSE_Sign, COSE_Mac0, COSE_Mac, COSE_Encrypt0 layouts under their own tag and under tag 18; the four TF-M vectors (both *_mac0.bin must be rejected, both *_sign1.bin accepted); random AST mutations. tag numbers whose low-order bytes are 18 (0x112, 0x1212, 2^16+18, 2^32+18 ...) in every argument width. Every envelope is judged by DecodeEvidenceFromCOSE, by UnmarshalCOSE on a fresh Evidence, on an Evidence with claims already attached, and on an Evidence that decoded a good token before - all four must agree. Oracle: a nil error from DecodeEvidenceFromCOSE / Evidence.UnmarshalCOSE requires that the independent reader sees tag 18 -> array of exactly 4 -> [bstr, map, bstr, non-empty bstr], nothing after it, and a payload whose content is exactly one CBOR map that decodes as claims (tagged map = NO-VERDICT); both entry points must agree; an accepted Evidence must hold (hook H2) exactly the token's parts; unmodified tokens must be accepted (positive control). distinct_nontrivial = distinct (class, variant) signatures")
+	c.Rule("envelopes assembled by the harness's own CBOR encoder around real signed tokens (7 algorithms, both profiles + extension): every tag 0..30 / 61 / 96 / 97 / 98 / none / nested / non-minimal; array lengths 0..6; each of the four elements replaced by every CBOR kind (uint, nint, bstr, empty bstr, tstr, array, map, tag, false, true, null, undefined, float); payload := a claims map of either profile in which one known claim (or a component / component field) carries a value of an undecodable type (27 kinds, incl. the EAT profile key 265 of a non-text type on tokens of either profile and component lists holding null / undefined entries); every tag number 0..300; payload content := int / tstr / array / null / undefined / true / float / bstr(map) / bstr(bstr(map)) / tagged map / map+trailing / empty / truncated map / indefinite map; 1-8 trailing bytes; COSE_Sign, COSE_Mac0, COSE_Mac, COSE_Encrypt0 layouts under their own tag and under tag 18; the four TF-M vectors (both *_mac0.bin must be rejected, both *_sign1.bin accepted); random AST mutations. tag numbers whose low-order bytes are 18 (0x112, 0x1212, 2^16+18, 2^32+18 ...) in every argument width. Every envelope is judged by DecodeEvidenceFromCOSE, by UnmarshalCOSE on a fresh Evidence, on an Evidence with claims already attached, and on an Evidence that decoded a good token before - all four must agree. Oracle: a nil error from DecodeEvidenceFromCOSE / Evidence.UnmarshalCOSE requires that the independent reader sees tag 18 -> array of exactly 4 -> [bstr, map, bstr, non-empty bstr], nothing after it, and a payload whose content is exactly one CBOR map that decodes as claims (tagged map = NO-VERDICT); both entry points must agree; an accepted Evidence must hold (hook H2) exactly the token's parts; unmodified tokens must be accepted (positive control). distinct_nontrivial = distinct (class, variant) signatures")
 	if err := extprof.Register(extprof.ExtP2Name); err != nil {
 		c.Violation("harness/register", err.Error(), nil)
 		return
@@ -394,6 +394,12 @@ func runC20(c *mon.Ctx) {
 				{"uint-for-text", tstrKey, refcbor.U(5)}, {"bstr-for-text", tstrKey, refcbor.Bstr([]byte("x"))}, {"array-for-text", tstrKey, refcbor.Arr()},
 				{"uint-for-component-list", compKey, refcbor.U(1)}, {"map-for-component-list", compKey, refcbor.MapOf()}, {"list-of-uints-for-components", compKey, refcbor.Arr(refcbor.U(1))},
 				{"component-with-text-measurement-value", compKey, refcbor.Arr(refcbor.MapOf(refcbor.U(2), refcbor.Tstr("x"), refcbor.U(5), refcbor.Bstr(g.Bytes(32))))},
+				// the EAT profile claim (key 265, read by the dispatcher for every token) of a non-text type
+				{"uint-for-eat-profile", model.P2KProfile, refcbor.U(42)}, {"bstr-for-eat-profile", model.P2KProfile, refcbor.Bstr([]byte(model.P2Name))}, {"array-for-eat-profile", model.P2KProfile, refcbor.Arr(refcbor.Tstr(model.P2Name))},
+				{"map-for-eat-profile", model.P2KProfile, refcbor.MapOf()}, {"bool-for-eat-profile", model.P2KProfile, refcbor.Bool(true)}, {"float-for-eat-profile", model.P2KProfile, refcbor.Flt(2.0, 4)},
+				// entries of the component list that are no component at all
+				{"component-list-with-undefined-entry", compKey, refcbor.Arr(refcbor.MapOf(refcbor.U(2), refcbor.Bstr(g.Bytes(32)), refcbor.U(5), refcbor.Bstr(g.Bytes(32))), refcbor.Undef())},
+				{"component-list-of-undefined", compKey, refcbor.Arr(refcbor.Undef())}, {"component-list-with-null-entry", compKey, refcbor.Arr(refcbor.Null(), refcbor.MapOf(refcbor.U(2), refcbor.Bstr(g.Bytes(32)), refcbor.U(5), refcbor.Bstr(g.Bytes(32))))},
 			} {
 				a := g.Valid(p)
 				w := a.WireCBOR()
